@@ -2584,7 +2584,7 @@ class Array:
                 new_qdata.append(new_qindices)
         cp._data = new_data
         cp._qdata = np.array(new_qdata, dtype=np.intp).reshape((len(new_data), self.rank))
-        cp._qsorted = False
+        cp._qdata_sorted = False
         return cp
 
     def _perm_qind(self, p_qind, leg):
